@@ -159,19 +159,33 @@ def call(kind, kwargs):
     return value(kind, kwargs)
 
 
-def make_fn(kind, argnames, name="xfn", defaults=None):
+def make_fn(kind, argnames, name="xfn", defaults=None, decorated=False):
     """Build the swept function from source; cloudpickle will pickle it by
-    value because its module is not importable."""
+    value because its module is not importable.  decorated: the function is a
+    functools.wraps wrapper (it has a __wrapped__ chain) around an inner function
+    whose results differ from the wrapper's - what the user runs is the wrapper."""
     defaults = defaults or {}
     params = ", ".join(
         "{}={!r}".format(a, defaults[a]) if a in defaults else a for a in argnames
     )
     kw = ", ".join("{0!r}: {0}".format(a) for a in argnames)
-    src = (
-        "def {name}({params}):\n"
-        "    import xsim.calllog as L\n"
-        "    return L.call({kind!r}, {{{kw}}})\n"
-    ).format(name=name, params=params, kind=kind, kw=kw)
+    if decorated:
+        src = (
+            "import functools\n"
+            "def _inner({params}, _d=0):\n"
+            "    import xsim.calllog as L\n"
+            "    return L.call({kind!r}, {{{kw}, '_d': _d}})\n"
+            "@functools.wraps(_inner)\n"
+            "def {name}({params}):\n"
+            "    return _inner({passed}, _d=1)\n"
+        ).format(name=name, params=params, kind=kind, kw=kw,
+                 passed=", ".join("{0}={0}".format(a) for a in argnames))
+    else:
+        src = (
+            "def {name}({params}):\n"
+            "    import xsim.calllog as L\n"
+            "    return L.call({kind!r}, {{{kw}}})\n"
+        ).format(name=name, params=params, kind=kind, kw=kw)
     ns = {"__name__": "__xsim_dynamic__"}
     exec(compile(src, "<xsim-fn-{}>".format(name), "exec"), ns)
     fn = ns[name]
